@@ -62,7 +62,7 @@ def _corrupt_diamond(evs):
 
 
 def plans(tier):
-    return progcheck.standard_plans(tier) + [("d4-grid-contract", 4, 1), ("d2-blockfirst", 4 if tier == "quick" else 16, 1), ("d1-diamond", 2 if tier == "quick" else 8, 1), ("d1-join", 2, 2 if tier == "quick" else 1), ("d2-einsum", 2, 1)]
+    return progcheck.standard_plans(tier) + [("d4-grid-contract", 4, 1), ("d2-blockfirst", 4 if tier == "quick" else 16, 1), ("d1-diamond", 2 if tier == "quick" else 8, 1), ("d1-join", 2, 2 if tier == "quick" else 1), ("d2-einsum", 2, 1), ("d3-sq-chain", 2, 8 if tier == "quick" else 1)]
 
 
 def accept(v):
